@@ -1,4 +1,4 @@
-\* one witness history for every (reachable model state, last operation) of a tiny model, up to K - 1 operations (thorough)
+\* one witness history for every (reachable model state, last operation, length) of a tiny model, up to K - 1 operations
 SPECIFICATION GenSpec
 CONSTANTS
   Types = {"gpu"}
@@ -10,7 +10,7 @@ CONSTANTS
   KnownCheck = TRUE
   ResetFree = TRUE
   CmpOK = TRUE
-  K = 6
+  K = 7
 VIEW GenView
 CONSTRAINT GenBound
 INVARIANT GenPrint
